@@ -144,9 +144,7 @@ func c08Honest(t pgFataler, st *vs.S, w *pgWorld, key []byte, label string) [][]
 		t.Fatalf("proof produced for key %x yields %x under the reference walk, trie holds %x (present=%v)\n%s", key, rv, want, present, c08WorldString(w))
 	}
 	if present {
-		label = "present"
-	} else if _, ok := w.Model[string(key)]; !ok && label == "present" {
-		label = "absent"
+		label = "present" // a drawn "absent" key may coincide with an entry
 	}
 	c.Classf("H:%s", label)
 	c.Classf("H-end:%s", reason)
